@@ -48,7 +48,7 @@ def selftest():
 
 def REQUIRED_COVER(tier):
     return {'magic:idx', 'magic:idx_crc', 'hashes:all', 'roots:2', 'roots:dup', 'order:alt', 'size:4', 'off:8', 'cache', 'neg:prefix', 'neg:flip', 'neg:ref',
-            'neg:root', 'neg:extend', 'full-product', 'neg:ref:backward-leaf', 'neg:ref:self', 'neg:ref:dangling', 'neg:ref:backward'}
+            'neg:root', 'neg:extend', 'full-product', 'neg:ref:backward-leaf', 'neg:ref:self', 'neg:ref:dangling', 'neg:ref:backward', 'boc-object-again'}
 
 
 # ------------------------------------------------------------------ DAG family (small)
@@ -193,6 +193,25 @@ def check_positive(rec, name, data, rv, fn, args, label):
         rec.violation(f'positive-roots:{label}', f'{name}: encoding [{label}] parsed to other roots ({len(got)} roots, expected {len(rv)})', fn, args)
         rec.outcome('WRONG-ROOTS')
         return False
+    # the parser OBJECT asked again (sixth session, wave 9): the caller empties the list it got, asks the same Boc object again - the roots of
+    # the encoding again, in a list of its own
+    try:
+        from pytoniq_core.boc.deserialize import Boc
+        b = Boc(data)
+        r1 = b.deserialize()
+        n1 = len(r1)
+        if isinstance(r1, list):
+            r1.clear()
+        r2 = b.deserialize()
+        ok2 = n1 == len(rv) and len(r2) == len(rv) and all(g.hash == r.hash() and lib_canon(g) == RC.canon(r) for g, r in zip(r2, rv))
+    except Exception as e:
+        rec.violation(f'positive-again:{label}', f'{name}: encoding [{label}]: the same Boc object asked twice: {exc_name(e)}: {e}', fn, args)
+        return False
+    if not ok2:
+        rec.violation(f'positive-again:{label}', f'{name}: encoding [{label}]: the same Boc object asked a second time (after the caller emptied the first list) returned '
+                      f'{len(r2)} root(s), expected {len(rv)}', fn, args)
+        return False
+    rec.covered('boc-object-again')
     rec.outcome('roots-ok')
     return True
 
@@ -410,6 +429,14 @@ def case_refgraph(rec, n, si, only=None):
                                    ('Slice.one_from_boc', lambda: [Slice.one_from_boc(bad)]), ('Builder.from_boc', lambda: Builder.from_boc(bad)),
                                    ('Boc.deserialize()', lambda: Boc(bad).deserialize()), ('Boc.deserialize(Cell)', lambda: Boc(bad).deserialize(Cell)),
                                    ('Boc.deserialize(Slice)', lambda: Boc(bad).deserialize(Slice))]
+                        def retry():
+                            b = Boc(bad)
+                            try:
+                                b.deserialize()
+                            except Exception:
+                                pass
+                            return b.deserialize()      # the same object asked again after it refused the bag: refused again
+                        entries.append(('Boc object asked again', retry))
                         for ename, thunk in entries:
                             try:
                                 got = thunk()
